@@ -13,6 +13,7 @@ MENUS = {
         ('noref', ['tA', 'tM', 'tMpA', 'p', 'q', 'ka', 'ppa', 'ppka', 'qpa', 'p_dup'], 6),
         ('baddefs', ['tA', 'tB', 'tAB', 'ka', 'cb', 'bad_dim', 'bad_cancel', 'arity', 'wrongorder', 'onbase', 'kacb', 'm_ka_cb'], 5),
         ('numterms', ['tA', 'ka', 'milli_a', 'kilo2_a', 'ha', 'd_ka_ha'], 6),
+        ('numterms2', ['tA', 'tA2', 'are', 'bad_are', 'a_one', 'ka', 'xa5'], 6),
     ],
     'thorough': [
         ('types', ['tA', 'tB', 'tM', 'tAB', 'tA2', 'tApB', 'tBi', 'tMpA', 'tA1', 'tA2_dup2', 'tA2_dup', 'tA_dupsym'], 6),
